@@ -636,7 +636,8 @@ class Reaction(Object):
         # Make the genes aware that it is involved in this reaction
         for g in self._genes:
             self._associate_gene(g)
-            if context:
+            # genes that were associated before stay associated when undoing
+            if context and g not in old_genes:
                 context(partial(self._dissociate_gene, g))
 
         # make the old genes aware they are no longer involved in this reaction
